@@ -148,8 +148,8 @@ Proof.
   assert (M0 : movedk c s sr k).
   { destruct M as (x & E1 & S1). exists x. split; [now rewrite E1, X1|].
     unfold T in *. rewrite X1, X2 in S1. exact S1. }
-  set (s2 := after_refresh c s sr).
-  assert (Y : out s2 = out sr) by (subst s2; unfold after_refresh; destruct (c_restores_ovf c); reflexivity).
+  set (s2 := after_refresh c s sr false).
+  assert (Y : out s2 = out sr) by (subst s2; unfold after_refresh; destruct (restores c false); reflexivity).
   set (fl := fst (frame_lines c (pre_refresh c s1))) in *.
   assert (HP : P_rows sr = P_rows s) by (unfold P_rows; now rewrite R8, X2).
   assert (HR : R_rows sr = region_rows fl) by (unfold R_rows; now rewrite R6, R7).
@@ -185,7 +185,7 @@ Proof.
     assert (ET4 : T c s4 = interp (Hn c) (interp (Hn c) (T c sr) [10]) cursor_on).
     { unfold T. subst s4. cbn [emit set_flags out]. rewrite Y, !interp_app. reflexivity. }
     assert (Es4 : shape s4 = shape sr).
-    { subst s4 s2. cbn [emit set_flags shape]. unfold after_refresh. destruct (c_restores_ovf c); reflexivity. }
+    { subst s4 s2. cbn [emit set_flags shape]. unfold after_refresh. destruct (restores c false); reflexivity. }
     exists (restore_cursor (shape s4)). split.
     { unfold forget. destruct (c_resets_shape c); reflexivity. }
     rewrite Es4, Hsh2, rc_is, to_nat_zlen, ET4, Hk.
